@@ -94,3 +94,14 @@ pub proof fn assume_size_below_2_64(s: &Segment)
     ensures s.size_bytes + RETAINED_BATCH_HEADER_LEN <= u64::MAX,
 {}
 
+
+// what the background saver may assume of each segment of a partition: closed segments hold no buffer, the open one is well-formed
+pub open spec fn saver_pre(s: &Segment) -> bool {
+    &&& s.is_closed ==> s.unsaved_messages is None
+    &&& !s.is_closed ==> seg_wf(s)
+}
+// A-size (assumption, listed): the running total of saved messages fits a usize
+#[verifier::external_body]
+pub proof fn assume_count_fits(n: usize, s: &Segment)
+    ensures n + seg_buf(s).len() <= usize::MAX,
+{}
